@@ -86,3 +86,12 @@ Lemma stopRead_uses_test c :
   if stopReadInLoop_stopread_test (rd_chan c) TcpConnection_kDisconnected (rd_flag c) (st_code (st c))
   then set_reading c false false else c.
 Proof. apply stopRead_is_source. Qed.
+
+Theorem pause_is_source : forall c,
+  startReadInLoop c =
+    (if startReadInLoop_startread_test (rd_chan c) TcpConnection_kDisconnected (rd_flag c) (st_code (st c))
+     then set_reading c true true else c) /\
+  stopReadInLoop c =
+    (if stopReadInLoop_stopread_test (rd_chan c) TcpConnection_kDisconnected (rd_flag c) (st_code (st c))
+     then set_reading c false false else c).
+Proof. intros c. split; [apply startRead_is_source|apply stopRead_is_source]. Qed.
